@@ -511,8 +511,17 @@ func init() {
 			return int64(0)
 		}
 		v := i.freshVarNamed(name, "i_"+smtName(name), 64)
-		i.assume(i.ts.Cmp(OpBVUlt, v, i.ts.Const(uint64(k), 64)))
-		return int64(i.concretize(v))
+		if i.ps.noDecide {
+			i.unsupported("sym.Choose during setup")
+		}
+		// a fresh variable constrained only by its range: every value is feasible, no query needed
+		for j := int64(0); j < k-1; j++ {
+			if i.decideKnown(i.ts.Eq(v, i.ts.Const(uint64(j), 64))) {
+				return j
+			}
+		}
+		i.assertPC(i.ts.Eq(v, i.ts.Const(uint64(k-1), 64)))
+		return k - 1
 	}
 	ext[symPkg+"String"] = func(fr *frame, a []value) value {
 		i := fr.i
